@@ -55,12 +55,15 @@ func VH_C20_ThreadedNewsWrite_sym() {
 	old := vBytes("old", 200)
 	vAssume(len(old) >= 1)
 	vfs.put("/cfg/ThreadedNews.yaml", old)
+	if vBool("stale_temp_file_from_earlier_crash") {
+		vfs.put("/cfg/ThreadedNews.yaml.tmp", vBytes("stale_tmp", 500))
+	}
 	initial := vfs.clone()
 	n := &ThreadedNewsYAML{filePath: "/cfg/ThreadedNews.yaml"}
 	err := n.writeFile()
 	vAssert("write_ok", err == nil)
 	vAssert("log_nonempty", len(vfsLog) >= 1)
-	newDoc := vfsLog[0].data
+	newDoc := c20Marshalled
 	s := c20Crash(initial)
 	i := s.find("/cfg/ThreadedNews.yaml")
 	vAssert("news_file_exists_at_crash", i >= 0)
